@@ -150,7 +150,11 @@ func (b *build) runShards(mode string, seed uint64, scenarios int) (*simResult, 
 	fails := make([]string, w)
 	drv.Parallel(w, w, func(i int) {
 		out := filepath.Join(b.scratch, fmt.Sprintf("res-%s-%d-%d.json", mode, seed, i))
-		r := drv.Run(b.scratch, 30*time.Minute, []string{"GOMAXPROCS=1"}, b.bin,
+		gmp := "GOMAXPROCS=1"
+		if v := os.Getenv("VERIF_BATCH_GOMAXPROCS"); v != "" {
+			gmp = "GOMAXPROCS=" + v
+		}
+		r := drv.Run(b.scratch, 30*time.Minute, []string{gmp}, b.bin,
 			"-mode", mode, "-seed", fmt.Sprint(seed), "-scenarios", fmt.Sprint(scenarios),
 			"-shard", fmt.Sprint(i), "-shards", fmt.Sprint(w),
 			"-skill", filepath.Join(b.repo, "internal", "llmsetup", "skills", "kessoku-di"),
@@ -392,4 +396,33 @@ func RunC16(tier string) int {
 			"ownership is not modelled on the simulated disk (permission bits apply to the caller as owner)",
 		}, WallS: wall, Violations: len(out.New)})
 	return code
+}
+
+// SelfTest: the disk simulation is a pure function of the seed, whatever GOMAXPROCS is.
+func SelfTest(seeds int) (int, map[string]any) {
+	b := prepare()
+	execs := 0
+	for _, mode := range []string{"c15", "c16"} {
+		for s := 0; s < seeds; s++ {
+			seed := uint64(2000 + s)
+			var ref string
+			for _, procs := range []int{1, 4, 16, 1, 4, 16} {
+				os.Setenv("VERIF_BATCH_GOMAXPROCS", fmt.Sprint(procs))
+				res, viols := b.runShards(mode, seed, 48)
+				execs++
+				res.WallS = 0
+				res.Samples = nil
+				j1, _ := json.Marshal(res)
+				j2, _ := json.Marshal(viols)
+				got := string(j1) + string(j2)
+				if ref == "" {
+					ref = got
+				} else if got != ref {
+					drv.Broken("selftest: engine C %s seed %d differs between executions (GOMAXPROCS=%d)", mode, seed, procs)
+				}
+			}
+			os.Unsetenv("VERIF_BATCH_GOMAXPROCS")
+		}
+	}
+	return execs, map[string]any{"engine_C_executions_compared": execs}
 }
